@@ -286,11 +286,13 @@ def c02_e(ctx: Ctx):
     if not out:
         out.append(ctx.inc(R, fi, fi.node, "no Job(..., directory_known=True) return found in open_job"))
     # abbreviated ids: a unique match is taken, several matches raise LookupError, none raises KeyError
+    colls = set()
     for n in cfg.stmt_nodes():
         a = n.ast
         if isinstance(a, ast.Assign) and any(isinstance(t, ast.Name) and t.id == idp for t in a.targets) and isinstance(a.value, ast.Subscript):
             facts = common.facts_at(ctx, fi, a, "nx")
             coll = canon(a.value.value)
+            colls.add(coll)
             if (f"len({coll}) == 1", True) in facts:
                 out.append(ctx.ok(R, fi, a, f"an abbreviated id is resolved only when exactly one listed id matches (len({coll}) == 1)"))
             else:
@@ -304,14 +306,15 @@ def c02_e(ctx: Ctx):
                     out.append(ctx.ok(R, fi, a, "LookupError is raised when more than one listed id matches the abbreviation"))
                 else:
                     out.append(ctx.viol(R, fi, a, f"LookupError is raised under {sorted(facts)}, not when several ids match"))
-    matches = [n for n in body_nodes(fi) if isinstance(n, ast.Assign) and any(isinstance(t, ast.Name) and t.id == "matches" for t in n.targets)]
+    matches = [n for n in body_nodes(fi) if isinstance(n, ast.Assign) and any(isinstance(t, ast.Name) and t.id in colls for t in n.targets)]
     for mdef in matches:
         v = mdef.value
         if isinstance(v, ast.ListComp) and v.generators:
             cond = " and ".join(canon(c) for c in v.generators[0].ifs).replace(" ", "")
             src = common.inline_at(ctx, fi, v.generators[0].iter, mdef)
             listed = any(isinstance(x, ast.Call) and any(q.endswith(("_find_job_ids", "_job_dirs")) for q in common.targets_of(ctx, fi, x)) for x in ast.walk(src))
-            if cond == f"id_.startswith({idp})" and listed:
+            ev = canon(v.generators[0].target)
+            if cond == f"{ev}.startswith({idp})" and canon(v.elt) == ev and listed:
                 out.append(ctx.ok(R, fi, mdef, "candidates are the listed ids that start with the abbreviation"))
             elif not listed:
                 out.append(ctx.viol(R, fi, mdef, f"candidates for an abbreviated id are taken from {canon(v.generators[0].iter)}, not from the directory listing"))
@@ -352,7 +355,8 @@ def c02_h(ctx: Ctx):
     """init() is idempotent also when somebody else creates the directory first (C12-a); a failed lazy load is not forgotten (from C09-a)."""
     from .c12 import c12_a
     from .c09 import c09_a
-    res = c12_a(ctx) + [r for r in c09_a(ctx) if "flag-after-load" in r.construct]
+    from .c05 import c05_a
+    res = c12_a(ctx) + [r for r in c09_a(ctx) if "flag-after-load" in r.construct] + [r for r in c05_a(ctx) if "abs-path" in r.construct]
     for r in res:
         r.rule = "C02-h"
     return res
